@@ -1,6 +1,6 @@
 """C08 part B — enum bitmaps, temporal calendar + per-zone index, xor-filter keys never rule out a zone
 that holds a matching row (to be merged into C08 by the maintainer)."""
-import json, os
+import json, os, re
 from decimal import Decimal
 from fractions import Fraction
 import datetime
@@ -12,13 +12,12 @@ from props import base
 PROP = "C08B"
 PROPS_V = "theories/Props/C08.v"
 THEOREMS = [
-    "C08b_enum_eq_sound", "C08b_enum_neq_sound", "C08b_enum_neq_undeclared_refuted", "C08b_enum_range_op_refuted",
+    "C08b_enum_eq_sound", "C08b_enum_neq_sound", "C08b_enum_neq_undeclared_sound", "C08b_enum_range_op_refuted",
     "C08b_enum_rows_per_zone_wrap_refuted", "C08b_enum_build_ok", "C08b_enum_outside_known",
-    "C08b_temporal_sound_nonneg", "C08b_temporal_eq_sound_any_magnitude",
-    "C08b_temporal_negative_zone_refuted", "C08b_temporal_negative_probe_refuted", "C08b_temporal_neq_refuted",
+    "C08b_temporal_sound", "C08b_temporal_eq_sound_any_magnitude", "C08b_temporal_neq_all_zones",
     "C08b_temporal_u32_wrap_refuted", "C08b_temporal_float_literal_refuted", "C08b_temporal_outside_known",
-    "C08b_xor_key_agree", "C08b_xor_zone_sound", "C08b_xor_field_sound", "C08b_xor_neq_refuted",
-    "C08b_xor_outside_known", "C08b_xor_failed_construction_loses_zone",
+    "C08b_xor_key_agree", "C08b_xor_zone_sound", "C08b_xor_field_sound", "C08b_xor_non_eq_all_zones",
+    "C08b_xor_presence_non_eq_all_zones", "C08b_xor_sound_all_operators", "C08b_xor_failed_construction_loses_zone",
 ]
 RULE = ("per structure: a flush of 1..12 zones with generated per-zone value lists (enum: all variant subsets, duplicates, "
         "undeclared/missing values, later zones longer than the first; temporal: values on/around hour and day boundaries, "
@@ -32,13 +31,13 @@ ASSUMPTIONS = [
     "a failed BinaryFuse8 construction skips the zone (modelled; not deterministically reachable, so not exercised by the generator)",
     "Rust's f64 Display is not modelled: a float cell/literal is identified by its display string, which the Rust probe checks against f64::to_string on every float case",
     "ZoneTemporalIndex::contains_ts's binary search is modelled as membership in the key list (keys are proved strictly increasing when max - min < 2^63; zones spanning more are outside the generator)",
-    "the selector's treatment of a pruner's None (no zones / all zones) and IndexPlanner::choose are taken from the Rust text by the translator, not probed",
+    "the field selector's treatment of a pruner answer (bypass for operators the index does not serve, fallback to all zones, no zones) is taken from the Rust text by the translator (also read by the oracle), not probed; IndexPlanner::choose is not modelled",
     "RoaringBitmap, bincode and the file formats are exercised by the probes (build -> file -> load -> prune) but modelled as identity",
     "enum columns hold only declared variants (guaranteed by STORE validation, property C06); undeclared values are generated for the correspondence only",
 ]
 TRUSTED = [
     "Coq 8.16.1 kernel + coqc; vm_compute for closed witnesses; no native_compute",
-    "translator tools/gen_params.py + tools/params/p31_zoneidx.py (bucket sizes and loop steps, u32 bucket-id and u16 rows_per_zone widths, stride, calendar non-negative guard, literal clamping, operator gates of the three pruners, None-handling of the field selector)",
+    "translator tools/gen_params.py + tools/params/p31_zoneidx.py (bucket sizes and loop steps, u32 bucket-id and u16 rows_per_zone widths, stride, calendar non-negative guard, signed probe instant / clamped calendar lookup, calendar range mode per builder branch, operator gates of the three pruners, None-handling of the field selector)",
     "extraction: ExtrOcamlBasic only; ocaml/driver.ml, conv.ml, p_zoneidx.ml (parsing/printing; exact rational of a double's bit pattern for float literals)",
     "correspondence harness /verif/harness (vharn fn zidx_*) calling the real builders, loaders and pruners of /repo through temp segment directories, built with --cfg sneldb_verif",
     "python oracle: brute-force scan of the zone values against the probe with int/Fraction arithmetic; an independent FxHasher in Python for zidx_hash",
@@ -46,7 +45,7 @@ TRUSTED = [
 
 CLAIMED = False   # part of C08; tools/props/c08.py carries the manifest entry
 MANIFEST = {
- "level_text": "C08 part B. Theorems over the executable models of the enum bitmap index, the temporal calendar + per-zone index and the xor-filter key derivation: for ALL zone counts, value lists and probes, a zone holding a matching row is returned (enum = and != with declared literal; temporal =,>,>=,<,<= for non-negative data and probes below the u32 day-bucket wrap; xor = given only the fuse-filter contract as a Section hypothesis). Where the faithful model violates the property, a vm_compute witness (_refuted), a narrow KnownClass and an _outside_known theorem are proved, and the witness is replayed on the real pruners. Models run against the real builders/loaders/pruners on generated flushes.",
+ "level_text": "C08 part B. Theorems over the executable models of the enum bitmap index, the temporal calendar + per-zone index and the xor-filter key derivation: for ALL zone counts, value lists and probes, a zone holding a matching row is scanned (enum = and != with any literal; temporal =,>,>=,<,<= for data and probes of any sign below the u32 day-bucket wrap, != and IN always; xor: every operator, = given only the fuse-filter contract as a Section hypothesis). Where the faithful model still violates the property (range operator on an enum field, u16 rows_per_zone, u32 day buckets, float literal on a datetime field) a vm_compute witness (_refuted), a narrow KnownClass and an _outside_known theorem are proved, and the witness is replayed on the real pruners. Models run against the real builders/loaders/pruners on generated flushes.",
  "design_ref": "DESIGN.md §6 C08",
  "level_note": "Trusted: Coq kernel; translator plug-in p31_zoneidx; ExtrOcamlBasic extraction + OCaml probe; Rust harness; Python brute-force oracle. BinaryFuse8 membership is an assumed contract (Section hypothesis); f64 Display not modelled; selector None-handling and strategy choice read from the text only."
 }
@@ -186,7 +185,7 @@ def gen_temporal(rng, out, n):
         elif r < 30:
             t0 = rng.range(U32, 10 ** 11 - 10 ** 7)
         elif r < 34:
-            t0 = -rng.range(0, 200000)
+            t0 = -rng.choice([rng.range(0, 200000), rng.range(0, 200000), rng.range(10 ** 8, 2 * 10 ** 9)])
         else:
             t0 = rng.range(0, 5 * 10 ** 9)
         col = "ts" if (t0 > 10 ** 6 and rng.chance(1, 4)) else "f"
@@ -205,7 +204,9 @@ def gen_temporal(rng, out, n):
                 vals.append(v)
             if rng.chance(1, 3):
                 vals.append(cur + span)
-            if rng.chance(1, 30) and col == "f":
+            if rng.chance(1, 30) and col == "f" and max(vals) < 10 ** 6:
+                # a pre-1970 value next to post-1970 ones (the zone is then filed from bucket 0 on: one hour
+                # bucket per hour up to its maximum, so only near the epoch)
                 vals.append(-rng.range(1, 100000))
             cur += rng.choice([0, 1, 3600, 86400, span + 1, span + rng.range(0, 2 * 86400)])
             cells = []
@@ -254,7 +255,7 @@ def gen_temporal(rng, out, n):
             lit = ("s", str(v), v if len(str(abs(v))) <= 11 else None)
         elif r < 26:
             u = rng.choice([2 ** 63, 2 ** 64 - 1, 10 ** 19, 2 ** 63 + 12345])
-            lit = ("s", str(u), u)
+            lit = ("s", str(u), None)     # 19 digits: nanoseconds for TimeParser; 20 digits: not a time literal
         elif r < 28:
             lit = ("fl", float(v) + rng.choice([0.0, 0.5, -0.25]))
         elif r < 29:
@@ -493,15 +494,39 @@ def required_zones(c):
     return None
 
 
+_SEL = {}
+
+
+def selector_flags():
+    """The field selector's treatment of a pruner answer, as the translator read it from field_selector.rs
+    (Gen/Params.v, zidx_sel_*): the oracle needs it to know what a query scans after the pruner answered."""
+    if not _SEL:
+        try:
+            txt = open(os.path.join(vlib.COQ, "theories", "Gen", "Params.v")).read()
+        except OSError:
+            txt = ""
+        for name, val in re.findall(r"Definition (zidx_sel_\w+) : (?:bool|N) := (\w+)", txt):
+            _SEL[name] = {"true": True, "false": False}.get(val, val)
+    return _SEL
+
+
 def selected_zones(c, impl):
-    """What the query would scan: the pruner's answer, or the selector's fallback when it answered None (no zones for
-    every strategy of this part; ZoneXorIndex only falls back to all zones while a segment is in flight)."""
+    """What the query would scan (FieldSelector::select_for_segment): all zones of the segment when the strategy is
+    bypassed for the operator; else the pruner's answer; else, for a None, all zones for the operators the selector
+    lists, and otherwise no zones (ZoneXorIndex: all zones only while the segment is in flight)."""
     f = fields(impl)
-    if c["st"] == "xor":
-        z = zset(f.get("zres"))
-    else:
-        z = zset(f.get("res"))
-    return set() if z is None else z
+    st, op = c["st"], c["op"]
+    fl = selector_flags()
+    key = {"enum": "zidx_sel_enum", "temp": "zidx_sel_temporal", "xor": "zidx_sel_zxf"}[st]
+    allz = set(z for z, _ in c["zones"])
+    if op != "eq" and fl.get(key + "_noneq_bypass"):
+        return allz
+    z = zset(f.get("zres") if st == "xor" else f.get("res"))
+    if z is not None:
+        return z
+    if (op == "neq" and fl.get(key + "_none_neq_all")) or (op == "in" and fl.get(key + "_none_in_all")):
+        return allz
+    return allz if fl.get(key + "_none") == "1" else set()
 
 
 def oracle(c, impl):
@@ -532,6 +557,8 @@ def day_bucket(t):
 
 
 def classify(c, impl):
+    """Known classes still present after the fix round (f801704, db7c428): EnumRangeOp, EnumZoneLongerThanBitmap,
+    TemporalNonIntegerLiteral, TemporalBeyondU32."""
     st, op = c.get("st"), c.get("op")
     if st == "enum":
         if impl == "PANIC":
@@ -541,38 +568,28 @@ def classify(c, impl):
             return None
         if op not in ("eq", "neq"):
             return "EnumRangeOp"
-        declared = c["lit"][0] == "s" and c["lit"][1] in c["variants"]
-        if op == "neq" and not declared:
-            return "EnumNeqUndeclaredLiteral"
         return None
     if st == "temp":
-        if impl in ("PANIC", "ABORT") or c.get("lv") is None:
+        if impl in ("PANIC", "ABORT") or c.get("lv") is None or op in ("neq", "in"):
             return None
-        if op == "neq":
-            return "TemporalNeq"
         if c["litkind"] in ("fl", "b", "n"):
             return "TemporalNonIntegerLiteral"
+        if op == "eq":
+            return None
+        num, den = c["lv"]
+        if day_bucket(max(num, 0)) >= U32:
+            return "TemporalBeyondU32"
         req = required_zones(c) or set()
         miss = req - selected_zones(c, impl)
         last = {}
         for z, vals in c["zones"]:
             last[z] = vals
-        if any(min(last[z]) < 0 for z in miss):
-            return "TemporalNegativeValueInZone"
-        v = c["lv"][0]
-        if v < 0 and op == "gt":
-            return "TemporalNegativeProbeGt"
-        if op != "eq" and (day_bucket(max(v, 0)) >= U32 or any(day_bucket(max(last[z])) >= U32 for z in miss)):
-            return "TemporalBeyondU32"
-        if op == "eq" and v >= 2 ** 63:
-            return "TemporalBeyondU32"
-        return None
-    if st == "xor":
-        if impl in ("PANIC", "ABORT") or fields(impl).get("own") != "1" or fields(impl).get("disp") != "ok":
-            return None
-        if op != "eq":
-            return "XorNonEqOperator"
-        return None
+        # a missed zone is excused only if EVERY row of it that satisfies the probe lies beyond the u32 day buckets
+        for z in miss:
+            rows = [t for t in last[z] if cmp_holds(op, t * den, num)]
+            if any(day_bucket(max(t, 0)) < U32 for t in rows):
+                return None
+        return "TemporalBeyondU32"
     return None
 
 
